@@ -116,8 +116,11 @@ IMPORTS_DEFS = (
            "Definition rt (e : expr) : string := match parse_text U (print_src e) with\n"
            "  | Some e' => if String.eqb (show_expr e') (show_expr e) then \"=\" else show_N (hs (show_expr e') 7)\n"
            "  | None => \"None\" end.\n"
-           "Definition tr (e : expr) : string := show_N (hs (show_str (print_src e)) 7) ++ \" \" ++ rt e ++ \" \" ++ show_bool (lexable e).\n"
-           "Definition pt (s : list N) : string := match parse_text U s with Some e => show_N (hs (show_expr e) 7) | None => \"None\" end.\n"
+           "Definition tr (e : expr) : string := show_N (hs (show_str (print_src e)) 7) ++ \" \" ++ rt e ++ \" \" ++ show_bool (lexable U e).\n"
+           "Definition pt (s : list N) : string := match parse_text U s with\n"
+           "  | Some e => show_N (hs (show_expr e) 7) ++ \" \" ++ show_bool (no_trailing_bs e) ++ \" \" ++\n"
+           "      match parse_text U (print_src e) with Some e' => if String.eqb (show_expr e') (show_expr e) then \"=\" else \"x\" | None => \"x\" end\n"
+           "  | None => \"None\" end.\n"
            "Definition ptf (s : list N) : string := show_opt show_expr (parse_text U s).")
 
 
@@ -367,8 +370,16 @@ def run(chk):
         chk.count("mut:" + t, nontrivial=o["ok"])
         acc += 1 if o["ok"] else 0
         m_ok = mv is not None and mv != "None"
-        if mv is not None and (m_ok != o["ok"] or (m_ok and mv != hs(o["dump"]))):
+        mh, ntb, back = (mv.split(" ") + [None, None])[:3] if m_ok else (None, None, None)
+        if mv is not None and (m_ok != o["ok"] or (m_ok and mh != hs(o["dump"]))):
             disagreements.append({"case": {"text": t}, "impl": o, "model": full_model(t) if len(disagreements) < 8 else mv})
+        elif m_ok:
+            # C12_parsed_roundtrip cross-checked by evaluation, and the model's round trip against the implementation's
+            if ntb == "T" and back != "=":
+                disagreements.append({"case": {"text": t}, "model": mv, "impl": "(the model contradicts C12_parsed_roundtrip: no fixed name ends in a backslash)"})
+            if (back == "=") != (o["redump"] == o["dump"]):
+                disagreements.append({"case": {"text": t}, "impl": o, "model": "parse(print(parse text)) %s parse text" % ("=" if back == "=" else "<>")})
+            chk.stat("parsed:no_trailing_bs" if ntb == "T" else "parsed:trailing_bs")
         oracle(t, o)
     chk.stat("mutated_accepted", acc)
     chk.stat("mutated_rejected", len(muts) - acc)
